@@ -44,12 +44,26 @@ seen = {}
 for b in blocks:
     seen.setdefault(sig(b), b)
 uniq = list(seen.values())
-def stacks_before_goroutine_creation(b):
-    # frames of the two accesses only (not "Goroutine N created at")
+def access_top_frames(b):
+    # the innermost frame of each of the two conflicting accesses
+    tops = []
     parts = re.split(r"\n\s*\n", b)
-    acc = [p for p in parts if re.match(r"\s*(WARNING: DATA RACE\n)?\s*(Read|Write|Previous read|Previous write|Atomic|Previous atomic)", p.strip())]
-    return "\n".join(acc) if acc else b
-repo_races = [b for b in uniq if REPO_MARK in stacks_before_goroutine_creation(b) or "github.com/256dpi/gomqtt" in stacks_before_goroutine_creation(b)]
+    for p in parts:
+        p = p.strip()
+        if re.match(r"(WARNING: DATA RACE\n)?\s*(Read|Write|Previous read|Previous write|Atomic|Previous atomic)", p):
+            fr = re.findall(r"^\s+([\w./*()\[\]%·-]+)\(\)\s*$", p, re.M)
+            # skip runtime / sync / stdlib wrappers to the first module frame
+            for f in fr:
+                if f.startswith("github.com/256dpi/gomqtt") or f.startswith("verif/"):
+                    tops.append(f)
+                    break
+            else:
+                if fr:
+                    tops.append(fr[0])
+    return tops
+def in_repo(b):
+    return any(t.startswith("github.com/256dpi/gomqtt") for t in access_top_frames(b))
+repo_races = [b for b in uniq if in_repo(b)]
 harness_only = [b for b in uniq if b not in repo_races]
 
 ev_path = os.path.join(root, "evidence", prop + ".json")
@@ -98,8 +112,8 @@ if result is None:
     if m and not ("SIGQUIT: quit" in out and out.find("SIGQUIT: quit") < m.start()):
         tail = out[m.start():m.start() + 12000]
         first_goroutine = tail.split("\n\n")[0:3]
-        in_repo = (REPO_MARK in "\n".join(first_goroutine)) or ("github.com/256dpi/gomqtt" in "\n".join(first_goroutine))
-        if in_repo:
+        crash_in_repo = (REPO_MARK in "\n".join(first_goroutine)) or ("github.com/256dpi/gomqtt" in "\n".join(first_goroutine))
+        if crash_in_repo:
             key = "process-crash:" + re.sub(r"0x[0-9a-f]+", "0x?", m.group(0))[:120]
             known = {}
             try:
